@@ -37,9 +37,11 @@ structure Ctx where
   esdt : List (Bytes × Nat × Nat)
   gasLeft : Nat
 
-def EXECUTE_PROPOSAL_CALLBACK_GAS : Nat := 10000000
-def EXECUTE_PROPOSAL_CALLBACK_GAS_PER_PAYMENT : Nat := 2000000
-def KEEP_EXTRA_GAS : Nat := 15000000
+-- regenerated from governance/src/lib.rs on every run (the debug VM does not meter gas: the constants are tied,
+-- the arithmetic around them is modelled, out-of-gas is outside the model)
+def EXECUTE_PROPOSAL_CALLBACK_GAS : Nat := Generated.GOV_EXECUTE_PROPOSAL_CALLBACK_GAS
+def EXECUTE_PROPOSAL_CALLBACK_GAS_PER_PAYMENT : Nat := Generated.GOV_EXECUTE_PROPOSAL_CALLBACK_GAS_PER_PAYMENT
+def KEEP_EXTRA_GAS : Nat := Generated.GOV_KEEP_EXTRA_GAS
 
 /-- the payments a dispatch captured (`EgldOrMultiEsdtPayment`) -/
 inductive Payments
